@@ -43,14 +43,10 @@ class ReadRec:
             fns=[AP + "PropagateRegistration.generateSubmission", AP + "PropagateRegistration.processResults", AP + "asyncPropagate"], mode="Z", assumes=RAY,
             note="a truth propagation job is built from the agent's own truth attributes only (time, step, state, dynamics, station keeping, queued propagation events, epoch), the worker calls nothing but dynamics.propagate on exactly those values, and the result is written back to that agent's time and state only - no filter, tasking, sensor or output-cadence datum can reach a truth trajectory")
 def truth_job(vc):
-    if not vc.symbolic:
-        for n in ("O-C10-truth-reads", "O-C10-own-agent", "O-C10-worker"):
-            vc.ensure(n, True)
-        return
     sk = [_NS(reductions=None)]
     reg_ag = ReadRec(station_keeping=sk, simulation_id=7, dynamics="DYN", time=100, dt_step=60, eci_state="X", propagate_event_queue=["EV"], datetime_epoch="NOW")
-    vc.stub(AP + "@ReductionParams", _NS(build=lambda d: ("RED", d)))
-    vc.stub(AP + "@PropagateSubmission", lambda **kw: _NS(**kw))
+    vc.install(AP + "@ReductionParams", _NS(build=lambda d: ("RED", d)))
+    vc.install(AP + "@PropagateSubmission", lambda **kw: _NS(**kw))
     reg = vc.new(AP + "PropagateRegistration", _registrant=reg_ag)
     sub = reg.generateSubmission()
     ok = set(reg_ag._reads) <= TRUTH and reg_ag._writes == [] and sub.agent_id == 7 and sub.dynamics == "DYN" and sub.init_time == 100 and sub.final_time == 160 \
@@ -61,7 +57,7 @@ def truth_job(vc):
     vc.ensure("O-C10-own-agent", reg_ag._writes == ["time", "eci_state"] and reg_ag._attrs["time"] == 160 and reg_ag._attrs["eci_state"] == "X1")
     calls = []
     dyn = _NS(propagate=lambda *a, **k: (calls.append((a, k)), "NEW")[1])
-    vc.stub(AP + "@PropagateResult", lambda **kw: _NS(**kw))
+    vc.install(AP + "@PropagateResult", lambda **kw: _NS(**kw))
     f = vc.fn(AP + "asyncPropagate")
     res = f(_NS(agent_id=7, dynamics=dyn, init_time=100, final_time=160, init_eci="X", station_keeping=sk, scheduled_events=["EV"], error_flags="EF"))
     vc.ensure("O-C10-worker", calls == [((100, 160, "X"), {"station_keeping": sk, "scheduled_events": ["EV"], "error_flags": "EF"})] and res.final_eci == "NEW"
@@ -72,10 +68,6 @@ def truth_job(vc):
             fns=[SC + "Scenario.stepForward"], mode="Z", assumes=RAY, bounded="2-3 targets, 2 sensors, 2 engines",
             note="in a step every truth job is created and joined before any estimation or tasking code runs; the truth part of the step is the same sequence of operations with estimation/tasking on or off and whatever the engines return; the estimation/tasking part never assigns an attribute of a target agent and touches sensor agents only through updateInfo/pruneTimeBiasEvents (pointing state, not trajectory); adding another agent adds one job for it and leaves the other agents' jobs unchanged")
 def step_frames(vc):
-    if not vc.symbolic:
-        for n in ("O-C10-truth-first", "O-C10-estimation-independent", "O-C10-no-truth-writes", "O-C10-other-agents"):
-            vc.ensure(n, True)
-        return
     o1 = _NS(tag="x", sensor_id=10, target_id=1)
     eng = lambda lg: {5: SF.Engine(lg, 5, {10: {"boresight": "b", "time_last_tasked": "t"}}, [o1]), 6: SF.Engine(lg, 6, {}, [])}
     _, full = SF.run_step(vc, engines=eng)
